@@ -155,7 +155,9 @@ func (f *out) Send(bt []byte) error {
 
 	dur := f.now.Sub(f.last)
 	ts_ms := int32(dur.Milliseconds())
-	f.last = f.now
+	// only the whole milliseconds that are reported have passed for the listener: the rest of the
+	// interval counts for the next message (otherwise the time stamps fall behind the clock)
+	f.last = f.last.Add(time.Duration(ts_ms) * time.Millisecond)
 	//f.wg.Add(1)
 	//fmt.Printf("message added % X (len %v) at [%v] in driver %q\n", bt, len(bt), ts_ms, f.Driver.name)
 	f.rd.EachMessage(bt, ts_ms)
